@@ -31,6 +31,7 @@ LEVEL = "exploration"
 TECHNIQUE = ("deterministic simulation: seeded chunk/extension/trailer grammar, byte-level malformations and truncation, "
              "seeded segmentation into a real _ChunkedTransferDecoder vs the original chunk list")
 QUICK_RUNS = 60000
+TWIN_P = 0.08   # this share of the runs drives two independent instances of the scenario one after the other (detsim.runner._run_scenario)
 BATCH = 200
 # RFC 9112 quoted-string allows quoted-pair ("\\" x) inside a chunk-ext-val; the decoder's
 # allowed-byte table has no backslash, so such a (valid) extension is rejected.  Off by
